@@ -56,6 +56,8 @@ def render(b, rng, split=True, docs=True, mode="lib"):
     lead = {f: (rng.random() < 0.3) for f in ("lib", "main")}       # a file may start with a line break (then the first doc comment)
     started = set()
 
+    # declared type of the fields, by name, for this program: int, or bits<8> (then a let may override a part of it only)
+    ftype = {n: ("bits<8>" if rng.random() < 0.3 else "int") for n in ("f", "g")}
     typed_classes = []          # (rendered name, declaration site) of the classes with template parameters declared so far
     extra_site = [1000000]      # sites the renderer adds on its own (not part of the abstract program)
 
@@ -184,10 +186,12 @@ def render(b, rng, split=True, docs=True, mode="lib"):
             depth += 1
         elif e == "Field":
             doc(ev["site"], "field")
-            emit(ind() + ("field " if rng.random() < 0.2 else "") + "int ")
+            fty = ftype.get(ev["f"], "int")
+            emit(ind() + ("field " if rng.random() < 0.2 else "") + fty + " ")
             emit(LX(ev["f"]), ev["site"])
             R.decl[ev["site"]] = ("field", ev["f"])
-            R.sigs[ev["site"]] = "int %s::%s" % (LX(ev["rec"]), LX(ev["f"]))
+            R.types[ev["site"]] = fty
+            R.sigs[ev["site"]] = "%s %s::%s" % (fty, LX(ev["rec"]), LX(ev["f"]))
             emit(" = ")
             val(ev["val"])
             emit(";\n")
@@ -197,12 +201,15 @@ def render(b, rng, split=True, docs=True, mode="lib"):
             emit(ind() + "let ")
             emit(LX(ev["f"]), ev["site"])
             R.uses.append((ev["site"], ev["tgt"], "let-name"))
-            R.lets.append((cur, len(files[cur]), ":int", ev["site"]))
+            fty = ftype.get(ev["f"], "int")
+            R.lets.append((cur, len(files[cur]), ":" + fty, ev["site"]))
+            if fty != "int" and rng.random() < 0.5:
+                emit(rng.choice(["{3-0}", "{7...4}", "{0}", "{1, 0}"]))          # only some bits are overridden: the field keeps its declared type
             emit(" = ")
             val(ev["val"])
             emit(";\n")
             rec = next(s for s in reversed(stack) if s["kind"] in ("class", "def"))
-            R.letsig[ev["site"]] = "int %s::%s" % (rec["node"]["name"], LX(ev["f"]))
+            R.letsig[ev["site"]] = "%s %s::%s" % (fty, rec["node"]["name"], LX(ev["f"]))
             if any(c["name"] == LX(ev["f"]) for c in rec["node"]["children"]):
                 R.ambiguous_children.add(rec["node"]["site"])      # declared and overridden in the same body: ambiguity zone
             rec["node"]["children"].append({"kind": "Field", "name": LX(ev["f"]), "site": ev["site"]})
@@ -211,7 +218,8 @@ def render(b, rng, split=True, docs=True, mode="lib"):
             emit(ind() + "defvar ")
             emit(LX(ev["v"]), ev["site"])
             R.decl[ev["site"]] = ("defvar", ev["v"])
-            vt = "int" if ev["val"]["k"] != "use" else R.types.get(ev["val"]["tgt"], "int")
+            vt = (ftype.get(ev["val"]["n"], "int") if ev["val"]["k"] == "amb" else
+                  "int" if ev["val"]["k"] != "use" else R.types.get(ev["val"]["tgt"], "int"))
             R.types[ev["site"]] = vt
             R.sigs[ev["site"]] = "%s %s" % (vt, LX(ev["v"]))
             emit(" = ")
@@ -350,12 +358,13 @@ def render(b, rng, split=True, docs=True, mode="lib"):
     files["mid"] = []
     if split:
         head = {"lib": ['include "lib.td"\n'], "lib-twice": ['include "lib.td"\n', 'include "lib.td"\n'],
-                "diamond": ['include "mid.td"\n', 'include "lib.td"\n'], "diamond2": ['include "lib.td"\n', 'include "mid.td"\n']}[mode]
+                "diamond": ['include "mid.td"\n', 'include "lib.td"\n'], "diamond2": ['include "lib.td"\n', 'include "mid.td"\n'],
+                "subdir": ['include "sub/mid.td"\n']}[mode]
         for h in reversed(head):
             files["main"].insert(0, (h, None))
         shift = len(head)
-        if mode.startswith("diamond"):
-            files["mid"] = [('include "lib.td"\n', None)]
+        if mode.startswith("diamond") or mode == "subdir":
+            files["mid"] = [('include "lib.td"\n', None)]      # (subdir: a bare name, resolved next to mid.td itself first)
     else:
         shift = 0
     R.text, R.range = {}, {}
@@ -393,7 +402,10 @@ def render(b, rng, split=True, docs=True, mode="lib"):
     return R
 
 
-def path(f):
+def path(f, R=None):
+    # mode "subdir": lib.td and mid.td live in a sub-directory, and a decoy lib.td sits next to the root
+    if R is not None and getattr(R, "mode", "") == "subdir" and f in ("lib", "mid"):
+        return "%s/sub/%s.td" % (W, f)
     return "%s/%s.td" % (W, f)
 
 
@@ -403,7 +415,7 @@ def queries_for(R):
         if not R.text[f] and f == "lib":
             continue
         for m in ("documentSymbol", "foldingRange", "inlayHint", "diagnostics"):
-            q.append({"m": m, "path": path(f), "tag": [m, f]})
+            q.append({"m": m, "path": path(f, R), "tag": [m, f]})
     # inlay hints for sub-ranges: whole lines that carry hints; a range ending strictly inside an overridden field's name;
     # a range that is exactly the class name of a reference with arguments
     for f in ("main", "lib"):
@@ -412,37 +424,39 @@ def queries_for(R):
             ls = txt.rfind(b"\n", 0, pos) + 1
             le = txt.find(b"\n", pos)
             le = len(txt) if le < 0 else le
-            q.append({"m": "inlayHint", "path": path(f), "range": [ls, le], "tag": ["hintrange", f, ls, le]})
+            q.append({"m": "inlayHint", "path": path(f, R), "range": [ls, le], "tag": ["hintrange", f, ls, le]})
             of, os_, oe = R.sites[owner]
             if oe - os_ >= 2:
-                q.append({"m": "inlayHint", "path": path(f), "range": [ls, os_ + 1], "tag": ["hintrange", f, ls, os_ + 1]})
-                q.append({"m": "inlayHint", "path": path(f), "range": [os_, oe - 1], "tag": ["hintrange", f, os_, oe - 1]})
+                q.append({"m": "inlayHint", "path": path(f, R), "range": [ls, os_ + 1], "tag": ["hintrange", f, ls, os_ + 1]})
+                q.append({"m": "inlayHint", "path": path(f, R), "range": [os_, oe - 1], "tag": ["hintrange", f, os_, oe - 1]})
     for (site, tgt, kind) in R.uses:
         f, s, e = R.sites[site]
         for off in sorted({s, (s + e) // 2, e - 1}):
-            q.append({"m": "definition", "path": path(f), "off": off, "tag": ["use", site]})
-        q.append({"m": "hover", "path": path(f), "off": s, "tag": ["hover", site]})
+            q.append({"m": "definition", "path": path(f, R), "off": off, "tag": ["use", site]})
+        q.append({"m": "hover", "path": path(f, R), "off": s, "tag": ["hover", site]})
     for (site, n) in R.dead:
         f, s, e = R.sites[site]
-        q.append({"m": "definition", "path": path(f), "off": s, "tag": ["dead", site]})
+        q.append({"m": "definition", "path": path(f, R), "off": s, "tag": ["dead", site]})
     for site in R.amb:
         f, s, e = R.sites[site]
-        q.append({"m": "definition", "path": path(f), "off": s, "tag": ["ambdef", site]})
-        q.append({"m": "hover", "path": path(f), "off": s, "tag": ["ambhover", site]})
+        q.append({"m": "definition", "path": path(f, R), "off": s, "tag": ["ambdef", site]})
+        q.append({"m": "hover", "path": path(f, R), "off": s, "tag": ["ambhover", site]})
     for site in R.decl:
         f, s, e = R.sites[site]
-        q.append({"m": "references", "path": path(f), "off": s, "tag": ["refs", site]})
-        q.append({"m": "definition", "path": path(f), "off": s, "tag": ["decl", site]})
-        q.append({"m": "hover", "path": path(f), "off": s, "tag": ["hoverdecl", site]})
+        q.append({"m": "references", "path": path(f, R), "off": s, "tag": ["refs", site]})
+        q.append({"m": "definition", "path": path(f, R), "off": s, "tag": ["decl", site]})
+        q.append({"m": "hover", "path": path(f, R), "off": s, "tag": ["hoverdecl", site]})
     return q
 
 
 def item_for(i, R):
     files = {path("main"): R.text["main"]}
     if R.split:
-        files[path("lib")] = R.text["lib"]
+        files[path("lib", R)] = R.text["lib"]
         if R.text["mid"]:
-            files[path("mid")] = R.text["mid"]
+            files[path("mid", R)] = R.text["mid"]
+        if R.mode == "subdir":
+            files[W + "/lib.td"] = "class Decoy_ { int decoy_ = 1; }\ndef decoy_d : Decoy_;\n"       # must never be picked
     return {"id": i, "kind": "idequery", "files": files, "root": path("main"), "queries": queries_for(R)}
 
 
@@ -486,7 +500,7 @@ def run_programs(tier, seed, wd):
     rng = random.Random("%d/scope" % seed)
     rs, items = [], []
     for i, b in enumerate(progs):
-        R = render(b, rng, split=rng.random() < 0.45, docs=True, mode=rng.choice(["lib", "lib", "lib-twice", "diamond", "diamond2"]))
+        R = render(b, rng, split=rng.random() < 0.45, docs=True, mode=rng.choice(["lib", "lib", "lib-twice", "diamond", "diamond2", "subdir"]))
         rs.append(R)
         items.append(item_for(i, R))
     log("%d programs generated by TLC (%d states)" % (len(progs), states))
@@ -496,7 +510,7 @@ def run_programs(tier, seed, wd):
 
 def loc(R, site):
     f, s, e = R.sites[site]
-    return [path(f), s, e]
+    return [path(f, R), s, e]
 
 
 def check_c05(tier, seed):
